@@ -115,3 +115,22 @@ package signer
 //@ invariant [done] forall j int :: 0 <= j && j < _n ==> ((res.Responses[j].State == pb.ResponseState_SUCCEEDED) <==> (res.Responses[j].Signature != nil))
 //@ invariant [todo-sig] forall j int :: _n <= j && j < len(res.Responses) ==> res.Responses[j].Signature == nil
 //@ invariant [todo-state] forall j int :: _n <= j && j < len(res.Responses) ==> res.Responses[j].State != pb.ResponseState_SUCCEEDED
+
+// ---- construction: the object handed out has every collaborator the methods rely on ----
+//@ func (Parameter).apply
+//@ requires p != nil
+//@ modifies p.logLevel, p.signer
+
+//@ func parseAndCheckParameters
+// (the guard in the loop tests the slice, not the option: a nil option would panic; every caller passes non-nil options)
+//@ requires [options] forall i int :: 0 <= i && i < len(params) ==> params[i] != nil
+//@ ensures [err] result1 != nil ==> result0 == nil
+//@ ensures [ok] result1 == nil ==> result0 != nil && result0.signer != nil
+//@ loop #1
+//@ invariant [range] 0 <= _n && _n <= len(params)
+
+//@ func New
+//@ requires [options] forall i int :: 0 <= i && i < len(params) ==> params[i] != nil
+//@ modifies log
+//@ ensures [err] result1 != nil ==> result0 == nil
+//@ ensures [ok] result1 == nil ==> wiredSignerHandler(result0)
